@@ -6,6 +6,16 @@ NOTES = ('All checks are ./check <id>; each rebuilds a source-only overlay from 
 NOT_CLAIMED = {}
 
 PROPS = {
+    'C18': {
+        'modules': ['contracts.C18_ws_buffer'],
+        'level': 'proof',
+        'level_text': 'Rely-guarantee over the atomic segments (await to await) of _BufferedReceiver._pump / receive / stop: the real coroutine bodies run with '
+                      'every await as a cut point (check global invariant + the segment guarantee, havoc shared state under the rely, assume invariant). '
+                      'Invariant: pulled == delivered ++ queue ++ in-hand (FIFO, lossless, exactly once), queue <= max, no lost wake-up, waiter discipline, '
+                      'no pull after disconnect; all schedules are covered because only the invariant and the rely are assumed at a resumption.',
+        'level_note': 'Safety only (promptness/liveness not decided). asyncio futures/tasks/wait are stubs with their documented state machine. One recorded known '
+                      'finding: the pump pulls one event beyond a full queue (holds max_queue + 1).',
+    },
     'C01': {
         'modules': ['contracts.C01_router'],
         'level': 'translation_validation',
